@@ -339,6 +339,17 @@ class Parser:
                     continue
                 path.append(self.eat()[1])
             p = '::'.join(path)
+            if self.at('!') and self.peek(1)[1] in ('(', '[') and self.peek(1)[0] == 'op':
+                self.eat('!')
+                opener = self.eat()[1]
+                closer = {'(': ')', '[': ']'}[opener]
+                depth = 1
+                while depth:
+                    v2 = self.eat()
+                    if v2[0] != 'str':
+                        depth += v2[1] == opener
+                        depth -= v2[1] == closer
+                return ('macrocall', p)
             if self.at('{') and not nostruct and path[-1][:1].isupper() and self.peek(1)[0] == 'id' and (self.at(':', 2) or self.at(',', 2)):
                 self.eat('{')
                 fs = []
@@ -396,10 +407,33 @@ def find_fn(src, impl_re, fn_name):
             depth -= src[j] == '}'
             j += 1
         body = src[m.end():j - 1]
-        f = re.search(r'\bfn\s+%s\s*(?:<[^>(]*>)?\s*\(' % re.escape(fn_name), body)
+        f = None
+        for cand in re.finditer(r'\bfn\s+%s\b\s*' % re.escape(fn_name), body):
+            j2 = cand.end()
+            if j2 < len(body) and body[j2] == '<':          # generic parameters, possibly nested
+                depth2 = 0
+                while j2 < len(body):
+                    depth2 += body[j2] == '<'
+                    depth2 -= body[j2] == '>'
+                    j2 += 1
+                    if depth2 == 0:
+                        break
+                while j2 < len(body) and body[j2].isspace():
+                    j2 += 1
+            if j2 < len(body) and body[j2] == '(':
+                f = cand
+                break
         if not f:
             continue
-        k = body.index('{', f.end())
+        depthp, kk = 0, body.index('(', f.end() - 0) if '(' in body[f.end():] or True else 0
+        kk = body.index('(', f.start())
+        while True:                                          # skip the parameter list (it may contain `{` in closures' types? no; but `(`)
+            depthp += body[kk] == '('
+            depthp -= body[kk] == ')'
+            kk += 1
+            if depthp == 0:
+                break
+        k = body.index('{', kk)
         # the signature may contain `{`? not in this crate
         depth, e = 1, k + 1
         while depth:
@@ -1017,6 +1051,11 @@ class GSym(Sym):
                     return ('()', 'unit')
                 if name == 'select' and ts == ['fq', 'fq']:
                     return ('(if %s then %s else %s)' % (a, av[0][0], av[1][0]), 'fq')
+            if t == 'natpoint' and name == 'vartime_compress_to_field' and not args:
+                return ('(((Ext.ofAffine (%s, %s)).encodeField sqrtRatioArk).getD 0)' % a, 'fq')   # the native encoder, out of circuit
+            if t == 'pair' and name == 'enforce_equal' and ts == ['pair']:
+                self.need('(Gen.Formulas.r1cs_is_eq %s %s %s %s)' % (a[0], a[1], av[0][0][0], av[0][0][1]))   # EqGadget default: is_eq == TRUE
+                return ('()', 'unit')
             if t == 'bits' and name in ('swap_remove', 'remove') and e[3] == [('num', 0)]:
                 return ('(%s %% 2 == 1)' % a, 'bool')
             if t == 'pair' and name == 'is_eq' and ts == ['pair']:
@@ -1060,6 +1099,15 @@ class GSym(Sym):
                 return ([('%s.1' % n, 'bool'), ('%s.2' % n, 'fq')], 'tuple')
             if f == 'Ok' and len(av) == 1:
                 return av[0]
+            if f.endswith('new_variable_omit_prime_order_check') and len(av) == 3 and av[1][1] == 'natinner':
+                px, py = av[1][0]
+                self.need('(C17.onCurve %s %s)' % (px, py))     # AffineVar allocation enforces the curve equation (ark-r1cs-std)
+                return ((px, py), 'pair')
+            if f in ('ElementVar::decompress_from_field', 'Self::decompress_from_field') and ts == ['fq']:
+                n = self.fresh('dec')
+                self.pending.append('let %s := Gen.Formulas.r1cs_decompress %s h' % (n, av[0][0]))
+                self.need('%s.1' % n)
+                return (('%s.2.1' % n, '%s.2.2' % n), 'pair')
             if f in ('Fq::from',) and len(e[2]) == 1 and e[2][0][0] == 'num':
                 return (str(e[2][0][1]), 'fq')
             hp = self.helper(f.split('::')[-1], len(av))
@@ -1081,6 +1129,8 @@ class GSym(Sym):
                 return (a, 'pair')
             if t == 'pair' and e[2] in ('x', 'y'):
                 return (a['xy'.index(e[2])], 'fq')
+            if t == 'natpoint' and e[2] == 'inner':
+                return (a, 'natinner')
             if t == 'tuple' and e[2].isdigit() and int(e[2]) < len(a):
                 return a[int(e[2])]
             raise Untranslatable('gadget field .%s of %s' % (e[2], t))
@@ -1097,6 +1147,8 @@ class GSym(Sym):
             raise Untranslatable('struct literal %s' % e[1])
         if k == 'tuple':
             return ([self.ev(x, env) for x in e[1]], 'tuple')
+        if k == 'macrocall' and e[1] == 'ns':
+            return ('cs', 'cs')
         return super().ev(e, env)
 
     def ev_block(self, stmts, env):
@@ -1556,6 +1608,10 @@ TARGETS = [
     dict(name='r1cs_is_eq', file='src/ark_curve/r1cs/inner.rs', impl=r'impl\s+EqGadget\s*<\s*Fq\s*>\s*for\s+ElementVar\s*\{', fn='is_eq', gadget=True, nosat=True, mode='pure', ret='bool',
          params='(x1 y1 x2 y2 : Nat)', env={'self': (('x1', 'y1'), 'pair'), 'other': (('x2', 'y2'), 'pair')}, new_order=None,
          fallback='R1cs.isEq (x1, y1) (x2, y2)', lean_ret='Bool'),
+    dict(name='r1cs_alloc_witness', file='src/ark_curve/r1cs/inner.rs', impl=r'impl\s+AllocVar\s*<\s*Element\s*,\s*Fq\s*>\s*for\s+ElementVar\s*\{', fn='new_variable',
+         arm='AllocationMode::Witness', gadget=True, mode='pure', ret='pair', params='(px py : Nat) (h : R1cs.Hint)',
+         env={'group_projective_point': (('px', 'py'), 'natpoint'), 'cs': ('cs', 'cs'), 'mode': ('mode', 'mode')}, new_order=None,
+         fallback='R1cs.allocWitness px py h', lean_ret='Bool × Nat × Nat'),
     dict(name='r1cs_is_nonnegative', file='src/ark_curve/r1cs/fqvar_ext.rs', impl=r'impl\s+FqVarExtension\s+for\s+FqVar\s*\{', fn='is_nonnegative', gadget=True, nosat=True, mode='pure', ret='bool',
          params='(x : Nat)', env={'self': ('x', 'fq')}, new_order=None, fallback='!isNeg x', lean_ret='Bool'),
     dict(name='r1cs_is_negative', file='src/ark_curve/r1cs/fqvar_ext.rs', impl=r'impl\s+FqVarExtension\s+for\s+FqVar\s*\{', fn='is_negative', gadget=True, nosat=True, mode='pure', ret='bool',
@@ -1615,6 +1671,16 @@ def translate(repo, cfg, index):
     src = open(path).read()
     text, l0, l1 = find_fn(src, cfg['impl'], cfg['fn'])
     info = dict(file=cfg['file'], fn=cfg['fn'], lines=[l0, l1], sha256=hashlib.sha256(text.encode()).hexdigest())
+    if cfg.get('arm'):
+        m = re.search(re.escape(cfg['arm']) + r'\s*=>\s*\{', text)
+        if not m:
+            raise Untranslatable('match arm %s not found' % cfg['arm'])
+        depth, j = 1, m.end()
+        while depth:
+            depth += text[j] == '{'
+            depth -= text[j] == '}'
+            j += 1
+        text = text[m.end() - 1:j]
     p = Parser(tokenize(text))
     stmts = p.block()
     sym = (GSym if cfg.get('gadget') else SarkSym if cfg.get('sark') else Sym)(cfg, const_table(repo, cfg['file'], index))
